@@ -68,6 +68,8 @@ pub enum Item {
 #[derive(Serialize, Deserialize, Clone, Debug, PartialEq, Eq)]
 pub enum Op {
     Insert(D),
+    /// insert through `year_for_mut(date)` when the year is inside the window (else a plain insert)
+    InsertViaYear(D),
     Contains(D),
     FirstAfter(D),
     Count,
